@@ -69,6 +69,16 @@ CLAIMED = {
   design_ref="DESIGN.md §3 C19",
   note="Trusted base: chi dispatches a Get/Head/Options route for that method only and applies Use-middlewares to everything registered afterwards including mounted routers; net/http; go/types + go/ssa; no reflection on the analysed paths. Ledger creation is not one of the four writes of the statement.",
   technique="route-table extraction + reachability over resolved call structure + edge-fact gate analysis (static analysis)"),
+ "C04": dict(
+  category="other",
+  text="Only the isolation clause (`entries of one ledger never affect another ledger sharing the same database`) is decided, for every query the store builds and every SQL function/trigger of the schema: each bun.SelectQuery chain that selects from a ledger-partitioned table carries `ledger = ?` bound to Store.name (followed through helpers, Apply'd builders, CTEs); joins are seq-keyed; `_ledger` functions get Store.name; every statement scope in the migration that touches a partitioned table has `ledger = _ledger|new.ledger` (frozen seq-keyed exceptions), inserts set the column, callers pass the ledger through. Equality of the projections with a replay of the log (volumes, PIT, metadata history, double entry) is SQL value semantics and is NOT decided.",
+  design_ref="DESIGN.md §3 C04",
+  technique="query-chain dataflow over SSA (union-find of builder values + helper summaries) + lexical SQL scope scan (static analysis)"),
+ "C20": dict(
+  category="other",
+  text="Static taint over all inputs: filter key/operator/value never reach the SQL fragment of any filter callback unsanitised (constant equality on all paths, constant-map lookup, quote-safe anchored regexp proved from its syntax tree, numeric/time types); the query combinators add only constant text; every SelectQuery format argument in ledgerstore derives from constants, Build results, rendered sub-queries or clean parameters (checked at all call sites). bun's quoting of bound arguments is trusted; cursor Column/Order are outside the statement.",
+  design_ref="DESIGN.md §3 C20",
+  technique="interprocedural SSA taint analysis with path-refined sanitisers and regexp/syntax safety proof (static analysis)"),
 }
 
 NOT_APPLICABLE = {
